@@ -196,8 +196,7 @@ def CanNest (s : Stk) : Bool := !s.flag Gen.flag_nnest
 type is the native `Stack` (a zero-valued `Stack{}` included — the type switch sees the type) -/
 def countsAsNested : Val → Bool
   | .stk _ _ _ => true
-  | .zstk .native => true
-  | _ => false
+  | _ => false          -- zero-valued instances (native ones included, repair F37) are not nested stacks
 /-- `Stack.IsNesting`: at least one element is a Stack or Stack alias -/
 def IsNesting (s : Stk) : Bool := s.xs.any countsAsNested
 /-- `Stack.SetPushPolicy` (id 0 / none removes the policy) -/
